@@ -406,15 +406,17 @@ for ch in ("A", "W"):
            level="B", bounds=by_tier("filenames of at most 3 characters (code points 1..255)", "filenames of at most 4 characters"),
            functions=["uriFilenameToUriString" + ch, "uri%sFilenameToUriString%s" % (nm, ch)],
            inlined=["uriEscapeEx" + ch], stubs=["memcpy (element loop)"], timeout_s=by_tier(900, 3600), mem_gb=10)
-    for (entry, nm) in ((("h_unix", "Unix"), ("h_windows", "Windows")) if ch == "A" else ()):
-        ob(id="FilenameRoundTrip%s.%s.H" % (nm, ch), props=["C18"], route="H", harness="c18_file.c", entry=entry, char=ch, tier=T,
+    for (entry, nm) in (("h_unix", "Unix"), ("h_windows", "Windows")):
+        ob(id="FilenameRoundTrip%s.%s.H" % (nm, ch), props=["C18", "C19"], route="H", harness="c18_file.c", entry=entry, char=ch,
            group="filename -> URI string -> filename: documented buffer sizes (canaries), round trip",
-           defines={"VF": 2, "VSTUB_MEMCPY": 1}, checks=NOPTROVF,
-           unwindset={"uriFilenameToUriString%s.*" % ch: 4, "uriUriStringToFilename%s.*" % ch: 16, "uriEscapeEx%s.*" % ch: 4, "uriUnescapeInPlaceEx%s.*" % ch: 16,
-                      "memcpy.*": 16, "strlen.*": 16, "wcslen.*": 16, "strncmp.*": 9, "wcsncmp.*": 9},
-           level="B", bounds="filenames of at most 2 characters (code points 1..255)",
+           defines=by_tier({"VF": 3, "VSTUB_MEMCPY": 1}, {"VF": 4, "VSTUB_MEMCPY": 1}), checks=NOPTROVF,
+           unwindset=by_tier({"uriFilenameToUriString%s.*" % ch: 5, "uriUriStringToFilename%s.*" % ch: 20, "uriEscapeEx%s.*" % ch: 5, "uriUnescapeInPlaceEx%s.*" % ch: 20,
+                              "memcpy.*": 20, "strlen.*": 20, "wcslen.*": 20, "strncmp.*": 9, "wcsncmp.*": 9},
+                             {"uriFilenameToUriString%s.*" % ch: 6, "uriUriStringToFilename%s.*" % ch: 24, "uriEscapeEx%s.*" % ch: 6, "uriUnescapeInPlaceEx%s.*" % ch: 24,
+                              "memcpy.*": 24, "strlen.*": 24, "wcslen.*": 24, "strncmp.*": 9, "wcsncmp.*": 9}),
+           level="B", bounds=by_tier("filenames of at most 3 characters (code points 1..255)", "filenames of at most 4 characters"),
            functions=["uriFilenameToUriString" + ch, "uriUriStringToFilename" + ch, "uri%sFilenameToUriString%s" % (nm, ch), "uriUriStringTo%sFilename%s" % (nm, ch)],
-           inlined=["uriEscapeEx" + ch, "uriUnescapeInPlaceEx" + ch], stubs=["memcpy (element loop)"], timeout_s=10800, mem_gb=24)
+           inlined=["uriEscapeEx" + ch, "uriUnescapeInPlaceEx" + ch], stubs=["memcpy (element loop)"], timeout_s=by_tier(1200, 3600), mem_gb=12)
     ob(id="FilenameShortForms.%s.H" % ch, props=["C18", "C19"], route="H", harness="c18_file.c", entry="h_shortforms", char=ch,
        group="short forms file:/x and file:c:/x accepted on input", defines={"VF": 3, "VSTUB_MEMCPY": 1}, checks=NOPTROVF,
        unwindset={"uriUriStringToFilename%s.*" % ch: 8, "uriUnescapeInPlaceEx%s.*" % ch: 8, "memcpy.*": 8, "strlen.*": 12, "wcslen.*": 12, "strncmp.*": 9, "wcsncmp.*": 9},
@@ -453,6 +455,13 @@ for ch in ("A", "W"):
            unwindset=by_tier({"uriEscapeEx%s.*" % ch: 5, "uriUnescapeInPlaceEx%s.*" % ch: 20}, {"uriEscapeEx%s.*" % ch: 7, "uriUnescapeInPlaceEx%s.*" % ch: 32}),
            level="B", bounds=by_tier("strings of at most 3 characters over code points 1..255, all flag combinations", "strings of at most 5 characters"),
            functions=[f + ch for f in fns], inlined=["uriHexToLetter" + ch, "uriHexdigToInt" + ch], stubs=[], timeout_s=by_tier(900, 3600), mem_gb=10)
+
+    ob(id="UnescapeTokens.%s.H" % ch, props=["C16", "C19"], route="H", harness="c16_content.c", entry="h_unescape", char=ch,
+       group="uriUnescapeInPlaceEx == spec_unescape on token-structured texts: up to 3 tokens, each a character or a well-formed %XX triplet (up to 9 characters), all flag combinations",
+       defines=by_tier({"VLC": 9, "V_TOKENS": 3}, {"VLC": 12, "V_TOKENS": 4}),
+       unwindset=by_tier({"uriUnescapeInPlaceEx%s.*" % ch: 12}, {"uriUnescapeInPlaceEx%s.*" % ch: 15}),
+       level="B", bounds=by_tier("texts of at most 3 tokens (character or %XX), i.e. at most 9 characters", "texts of at most 4 tokens, at most 12 characters"),
+       functions=["uriUnescapeInPlaceEx" + ch], inlined=["uriHexdigToInt" + ch], stubs=[], timeout_s=by_tier(900, 3600), mem_gb=10)
 
 # ----------------------------------------------------------------------------------------------------------------
 # C01/C02  dispatch obligations: code == LL(1) table extracted from the production comments (route D), and the
@@ -512,9 +521,9 @@ QUICK = {
     "C13": [r"^static\.", r"^FreeUriMembersMm\.A", r"^MakeOwner\.A", r"^DissectQuery\.A", r"^uriMemoryManagerIsComplete", r"^AppendQueryItem\.A", r"^ComposeQueryMalloc\.A"],
     "C14": [r"^AddBaseUri\.A", r"^MakeOwner\.A", r"^DissectQuery\.A", r"^AppendQueryItem\.A", r"^StopSyntaxMalloc\.A", r"^PushPathSegment\.A", r"^RemoveBaseUri\.A", r"^NormalizeSyntax\.borrowed\.path\.A"],
     "C15": [r"."],
-    "C16": [r"^EscapeEx\.A\.N", r"^UnescapeInPlaceEx\.A\.N", r"^EscapeEx\.corner", r"Content\.", r"^EscapeRoundTrip\."],
+    "C16": [r"^EscapeEx\.A\.N", r"^UnescapeInPlaceEx\.A\.N", r"^EscapeEx\.corner", r"Content\.", r"^EscapeRoundTrip\.", r"^UnescapeTokens\.A"],
     "C17": [r"^DissectQuery\.", r"^AppendQueryItem\.A", r"^ComposeQuery\.", r"^ComposeQueryMalloc\."],
-    "C18": [r"^FilenameToUri", r"^FilenameShortForms\."],
+    "C18": [r"^FilenameRoundTrip", r"^FilenameShortForms\."],
     "C19": [r"^Marks\.Parse(UriTail|AuthorityTwo|OwnUserInfo)\.W", r"^ComposeQueryMalloc\.W", r"^EqualsUri\.W", r"^CompareRange\.W", r"^ToString\.cap\..*\.W", r"^MakeOwner\.W", r"^RemoveBaseUri\.W", r"^DissectQuery\.W", r"Content\.W", r"^EscapeRoundTrip\.W",
             r"^OnExitHost\.W", r"^NormalizeMaskRequired\..*\.W", r"^Dispatch\.Parse(PctEncoded|UriReference|OwnHost2|IpFuture)\.W", r"^FilenameShortForms\.W"],
     "C20": [r"^static\.", r"^Watch\..*\.A", r"^Watch\.(AddBaseUri|ComposeQuery)\.W", r"^EqualsUri\.A", r"^ToString\.cap\.regname\.A", r"^MakeOwner\.A"],
